@@ -74,12 +74,12 @@ def min_run_filter(b, m):
 # ------------------------------------------------------------------------------------------------
 # C02: extrema from half-waves of the band-passed signal
 
-def half_wave_extrema(raw, filt):
+def half_wave_extrema(raw, filt, zero_is_positive=False):
     """Peaks/troughs (indices into raw/filt, same length) of every half-wave of ``filt`` closed by
     zero-crossings on both sides: window [crossing sample, next crossing sample), first arg-max /
     arg-min of ``raw`` inside it.  Also returns the windows and whether a tie occurred."""
     n = len(filt)
-    pos = [bool(v > 0) for v in filt]
+    pos = [bool(v >= 0) for v in filt] if zero_is_positive else [bool(v > 0) for v in filt]
     cross = []
     for i in range(n - 1):
         if (not pos[i]) and pos[i + 1]:
@@ -106,9 +106,11 @@ def half_wave_extrema(raw, filt):
     return peaks, troughs, info
 
 
-def ref_find_extrema(raw_padded, filt, offset, sig_len, boundary, first_extrema):
-    """Reference for find_extrema given the recorded filter input/output."""
-    peaks, troughs, info = half_wave_extrema(raw_padded, filt)
+def ref_find_extrema(raw_padded, filt, offset, sig_len, boundary, first_extrema,
+                     zero_is_positive=False):
+    """Reference for find_extrema given the filter input/output.  An exactly-zero band-passed
+    sample belongs to the negative half-wave (the code's convention) unless ``zero_is_positive``."""
+    peaks, troughs, info = half_wave_extrema(raw_padded, filt, zero_is_positive)
     peaks = [p - offset for p in peaks]
     troughs = [t - offset for t in troughs]
     info['dropped_pad_or_boundary'] = 0
@@ -135,9 +137,11 @@ def ref_find_extrema(raw_padded, filt, offset, sig_len, boundary, first_extrema)
 # ------------------------------------------------------------------------------------------------
 # C03: flank midpoints
 
-def ref_midpoint(sig, a, b, kind):
+def ref_midpoint(sig, a, b, kind, equal_is_low=True):
     """Midpoint of the flank from extremum a to extremum b (a < b), kind 'rise' or 'decay'.
 
+    A sample equal to the half height counts as below it (``equal_is_low``, the convention the code
+    has always used) or as above it (the other reading of "the sample just before the signal crosses").
     Returns (value, branch) or (None, 'open') when the statement leaves the case open (no crossing
     of the half height although the flank is neither inverted nor identically zero)."""
     seg = [float(v) for v in sig[a:b + 1]]
@@ -157,13 +161,17 @@ def ref_midpoint(sig, a, b, kind):
     xs = []
     tie = False
     for i in range(L - 1):
+        if equal_is_low:
+            lo0, lo1 = seg[i] <= mid, seg[i + 1] <= mid
+        else:
+            lo0, lo1 = seg[i] < mid, seg[i + 1] < mid
         if kind == 'rise':
-            if seg[i] <= mid and seg[i + 1] > mid:
+            if lo0 and not lo1:
                 xs.append(i)
         else:
-            if seg[i] > mid and seg[i + 1] <= mid:
+            if (not lo0) and lo1:
                 xs.append(i)
-        if seg[i] == mid:
+        if seg[i] == mid or seg[i + 1] == mid:
             tie = True
     if not xs:
         return None, 'open'
